@@ -209,6 +209,14 @@ func genOpts() bs.GenOpts {
 	return bs.GenOpts{MaxMembers: 12, MaxTopics: 5, MaxParts: 10, Priors: true, Hostile: true}
 }
 
+func sumCounts(in bs.Input) int {
+	n := 0
+	for _, c := range in.Counts {
+		n += int(c)
+	}
+	return n
+}
+
 func TestHandoffRandom(t *testing.T) {
 	n := 0
 	rapid.Check(t, func(t *rapid.T) {
@@ -216,7 +224,7 @@ func TestHandoffRandom(t *testing.T) {
 		d := in.String()
 		threeRounds(t, in, d)
 		n++
-		if n%503 == 11 && bs.Describe(in).StaleConflict {
+		if n%53 == 11 && bs.Describe(in).StaleConflict && sumCounts(in) >= 4 {
 			ev.SampleIf(func() any {
 				ms := bs.CloneMembers(in.Members)
 				r1, _ := bs.Round(coop, ms, in.Counts, bs.NextGen(ms))
@@ -375,7 +383,9 @@ func TestHistoryRandom(t *testing.T) {
 		}
 		ev.Case("history|"+sb.String(), revoked > 0 && len(h.rounds) >= 3)
 		if revoked >= 2 && sawStaleReturn {
-			ev.SampleIf(func() any { return map[string]any{"kind": "history with a returning stale member", "rounds": h.String()} })
+			ev.SampleIf(func() any {
+				return map[string]any{"kind": "history with a returning stale member", "rounds": h.String()}
+			})
 		}
 	})
 }
